@@ -122,6 +122,9 @@ func (r *dataReader) Read(b []byte) (n int, err error) {
 				r.state = stateEOF
 				continue
 			}
+			// Not part of .\r\n: emit the saved \r and look at c again.
+			r.r.UnreadByte()
+			c = '\r'
 			r.state = stateData
 		case stateCR:
 			if c == '\n' {
